@@ -11,6 +11,9 @@
 //   14 offset_from(section)   15 to_slice            16 to_string            17 read_null_terminated_slice ->pool
 //   18 read_address(arg)      19 read_offset(arg=8:Dwarf64)  20 read_length  21 read_sized_offset(arg)
 //   22 clone ->pool           23 drop                24 offset_from(pool[arg])   25 lookup_offset_id(pool[arg].offset_id())
+// Case:   c10.parse <what> <be> <flag> <addrsize> <hex>   what: 1 .debug_abbrev, 2 .debug_line, 3 DWARF expression
+//   the blob is parsed under each of the six reader kinds and the dumps (values, strings, blocks as bytes,
+//   error names; flag=1: also OperationIter::offset_from after an error) must be identical: `same`.
 // Result: `ok tok tok ...`, one token `<result>/<off>.<len>` per call (off/len of pool[i] afterwards).
 // Oracles evaluated here on the implementation alone:
 //   * after every call the reader (and any returned reader) must be a zero-copy view: pointer range inside
@@ -290,6 +293,9 @@ fn run_kind<R: K>(cx: &Cx, root: R, ops: &[Op]) -> Vec<String> {
 }
 
 pub fn run(t: &[&str]) -> String {
+    if t[0] == "c10.parse" {
+        return run_parse(t);
+    }
     let mask: u32 = t[1].parse().unwrap();
     let endian = endian(t[2]);
     let data = hex(t[3]);
@@ -361,4 +367,230 @@ pub fn run(t: &[&str]) -> String {
         line.push_str(tok);
     }
     line
+}
+
+// ------------------------------------------------------------------ whole-section parses under every kind
+trait Job {
+    fn go<R: K>(&self, r: R) -> String;
+}
+
+fn hexr<R: K>(r: &R) -> String {
+    match r.to_slice() {
+        Ok(c) => tohex(&c),
+        Err(x) => err(&x),
+    }
+}
+
+fn attr_bytes<R: K>(a: &gimli::AttributeValue<R>) -> String {
+    match a {
+        gimli::AttributeValue::String(r) => format!("s{}", hexr(r)),
+        gimli::AttributeValue::Block(r) => format!("b{}", hexr(r)),
+        gimli::AttributeValue::Udata(v) => format!("u{}", v),
+        gimli::AttributeValue::Data1(v) => format!("u{}", v),
+        gimli::AttributeValue::Data2(v) => format!("u{}", v),
+        gimli::AttributeValue::Data4(v) => format!("u{}", v),
+        gimli::AttributeValue::Data8(v) => format!("u{}", v),
+        _ => "other".into(),
+    }
+}
+
+struct AbbrevJob;
+impl Job for AbbrevJob {
+    fn go<R: K>(&self, r: R) -> String {
+        let da = gimli::DebugAbbrev::from(r);
+        match da.abbreviations(gimli::DebugAbbrevOffset(0)) {
+            Err(x) => err(&x),
+            Ok(ab) => {
+                let mut s = String::from("ok");
+                for code in 0..=48u64 {
+                    if let Some(a) = ab.get(code) {
+                        s.push_str(&format!(" [{} {} {}", a.code(), a.tag().0, a.has_children()));
+                        for at in a.attributes() {
+                            s.push_str(&format!(" {}:{}:{:?}", at.name().0, at.form().0, at.implicit_const_value()));
+                        }
+                        s.push(']');
+                    }
+                }
+                s
+            }
+        }
+    }
+}
+
+struct LineJob {
+    address_size: u8,
+}
+impl Job for LineJob {
+    fn go<R: K>(&self, r: R) -> String {
+        let dl = gimli::DebugLine::from(r);
+        let prog = match dl.program(gimli::DebugLineOffset(0), self.address_size, None, None) {
+            Ok(p) => p,
+            Err(x) => return err(&x),
+        };
+        let mut s = String::from("ok");
+        {
+            let h = prog.header();
+            s.push_str(&format!(
+                " v{} {} {} {} {} {} {}",
+                h.version(),
+                h.minimum_instruction_length(),
+                h.maximum_operations_per_instruction(),
+                h.default_is_stmt(),
+                h.line_base(),
+                h.line_range(),
+                h.opcode_base()
+            ));
+            s.push_str(&format!(" L{}", tohex(h.standard_opcode_lengths().raw())));
+            for d in h.include_directories() {
+                s.push_str(&format!(" d{}", attr_bytes(d)));
+            }
+            for f in h.file_names() {
+                s.push_str(&format!(" f{}:{}:{}:{}", attr_bytes(&f.path_name()), f.directory_index(), f.timestamp(), f.size()));
+            }
+            s.push_str(&format!(" P{}", hexr(&h.raw_program_buf())));
+            let mut ins = h.instructions();
+            loop {
+                match ins.next_instruction(h) {
+                    Ok(Some(i)) => match i {
+                        gimli::LineInstruction::UnknownExtended(op, r) => s.push_str(&format!(" X{}:{}", op.0, hexr(&r))),
+                        gimli::LineInstruction::DefineFile(f) => s.push_str(&format!(
+                            " F{}:{}:{}:{}",
+                            attr_bytes(&f.path_name()), f.directory_index(), f.timestamp(), f.size()
+                        )),
+                        gimli::LineInstruction::UnknownStandardN(op, r) => s.push_str(&format!(" N{}:{}", op.0, hexr(&r))),
+                        other => s.push_str(&format!(" {:?}", other).replace(' ', "")),
+                    },
+                    Ok(None) => break,
+                    Err(x) => {
+                        s.push_str(&format!(" {}", err(&x).replace(' ', "-")));
+                        break;
+                    }
+                }
+            }
+        }
+        let mut rows = prog.rows();
+        loop {
+            match rows.next_row() {
+                Ok(Some((_, row))) => s.push_str(&format!(
+                    " ({:x} {} {} {:?} {:?} {} {} {} {})",
+                    row.address(), row.op_index(), row.file_index(), row.line().map(|l| l.get()),
+                    row.column(), row.is_stmt(), row.basic_block(), row.end_sequence(), row.discriminator()
+                )),
+                Ok(None) => break,
+                Err(x) => {
+                    s.push_str(&format!(" {}", err(&x).replace(' ', "-")));
+                    break;
+                }
+            }
+        }
+        s
+    }
+}
+
+struct ExprJob {
+    encoding: gimli::Encoding,
+    after_error: bool,
+}
+impl Job for ExprJob {
+    fn go<R: K>(&self, r: R) -> String {
+        let expr = gimli::Expression(r);
+        let mut it = expr.clone().operations(self.encoding);
+        let mut s = String::from("ok");
+        loop {
+            match it.next() {
+                Ok(Some(op)) => {
+                    let d = match &op {
+                        gimli::Operation::ImplicitValue { data } => format!("ImplicitValue:{}", hexr(data)),
+                        gimli::Operation::EntryValue { expression } => format!("EntryValue:{}", hexr(expression)),
+                        gimli::Operation::TypedLiteral { base_type, value } => {
+                            format!("TypedLiteral:{}:{}", base_type.0, hexr(value))
+                        }
+                        other => format!("{:?}", other).replace(' ', ""),
+                    };
+                    s.push_str(&format!(" {}@{}", d, it.offset_from(&expr)));
+                }
+                Ok(None) => break,
+                Err(x) => {
+                    s.push_str(&format!(" E{}", errname(&x)));
+                    if self.after_error {
+                        // public API: where did the iterator stop?
+                        match catch_unwind(AssertUnwindSafe(|| it.offset_from(&expr))) {
+                            Ok(o) => s.push_str(&format!(" @{}", o)),
+                            Err(_) => s.push_str(" @P"),
+                        }
+                    }
+                    break;
+                }
+            }
+        }
+        s
+    }
+}
+
+fn guarded<J: Job, R: K>(job: &J, r: R) -> String {
+    match catch_unwind(AssertUnwindSafe(|| job.go(r))) {
+        Ok(s) => s,
+        Err(_) => "panic".into(),
+    }
+}
+
+fn all_kinds<J: Job>(data: &[u8], endian: RunTimeEndian, job: &J) -> Vec<(&'static str, String)> {
+    let mut v = Vec::new();
+    let rc: Rc<[u8]> = Rc::from(data);
+    v.push(("rc", guarded(job, EndianReader::new(rc.clone(), endian))));
+    let arc: Arc<[u8]> = Arc::from(data);
+    v.push(("arc", guarded(job, EndianReader::new(arc, endian))));
+    let freed = Rc::new(Cell::new(false));
+    let buf = CustomBuf(Rc::new(Owner { data: data.to_vec(), freed: freed.clone() }));
+    let mut c = guarded(job, EndianReader::new(buf, endian));
+    if !freed.get() {
+        c.push_str(" !leak");
+    }
+    v.push(("custom", c));
+    let probe = Rc::new(Cell::new(None));
+    v.push(("rrc", guarded(job, RelocateReader::new(EndianReader::new(rc, endian), IdReloc { last: probe.clone() }))));
+    v.push(("slice", guarded(job, EndianSlice::new(data, endian))));
+    v.push(("rslice", guarded(job, RelocateReader::new(EndianSlice::new(data, endian), IdReloc { last: probe }))));
+    v
+}
+
+fn run_parse(t: &[&str]) -> String {
+    let what: u32 = t[1].parse().unwrap();
+    let endian = endian(t[2]);
+    let flag = t[3] == "1";
+    let address_size: u8 = t[4].parse().unwrap();
+    let data = hex(t[5]);
+    let dumps = match what {
+        1 => all_kinds(&data, endian, &AbbrevJob),
+        2 => all_kinds(&data, endian, &LineJob { address_size }),
+        3 => all_kinds(
+            &data,
+            endian,
+            &ExprJob {
+                encoding: gimli::Encoding { format: Format::Dwarf32, version: 5, address_size },
+                after_error: flag,
+            },
+        ),
+        _ => return "badop".into(),
+    };
+    if std::env::var_os("GV_C10_DUMP").is_some() {
+        return dumps[0].1.clone();
+    }
+    let (rname, reference) = &dumps[0];
+    for (name, d) in &dumps[1..] {
+        if d != reference {
+            // first differing token
+            let a: Vec<&str> = d.split(' ').collect();
+            let b: Vec<&str> = reference.split(' ').collect();
+            let mut k = 0;
+            while k < a.len() && k < b.len() && a[k] == b[k] {
+                k += 1;
+            }
+            return format!(
+                "kinds-mismatch tok={} {}={} {}={}",
+                k, name, a.get(k).unwrap_or(&"<end>"), rname, b.get(k).unwrap_or(&"<end>")
+            );
+        }
+    }
+    "same".into()
 }
